@@ -223,10 +223,14 @@ pub fn mutate_reg(rng: &mut Rng, c: &rc::Circuit) -> rc::Circuit {
             };
         }
         2 => {
-            m.max_reg_count = match rng.below(4) {
+            m.max_reg_count = match rng.below(6) {
                 0 => 0,
                 1 => m.max_reg_count.saturating_sub(1),
                 2 => m.max_reg_count + 1,
+                // (absurd counts, as a deserialized circuit may declare them; only counts that no
+                // allocation can be attempted for, so that the harness process survives)
+                3 => usize::MAX - rng.usize_below(2),
+                4 => (isize::MAX as usize) + 1 + rng.usize_below(1 << 20),
                 _ => 1,
             };
         }
